@@ -61,16 +61,3 @@ Definition finding_C11_b (evs : list event) : bool := pause_inside_from [] evs.
 
 Definition no_bad (l : list obs) : bool := forallb (fun o => match o with OBad _ => false | _ => true end) l.
 
-(* C09-a: a deferred pause is pending when a `checkpoint` message is executed although, according to the trace
-   specification, no checkpoint is in effect (clear_checkpoint earlier in the same call): in the code an explicit
-   checkpoint does not re-establish resumability, so the pause that takes effect there turns into an abort *)
-Fixpoint finding_C09_a_from (m : mon) (l : list titem) : bool :=
-  match l with
-  | [] => false
-  | t :: l' =>
-      (match t with
-       | TObs (OMsg x) => is_checkpoint (mcmd x) && mdef m && match mcache m with None => true | Some _ => false end
-       | _ => false
-       end) || finding_C09_a_from (mon_item m t) l'
-  end.
-Definition finding_C09_a (l : list titem) : bool := finding_C09_a_from mon0 l.
